@@ -17,13 +17,21 @@ func init() {
 			sliceServe: true,
 		}},
 		files: map[string]string{
-			"harness/server/zz_verif_common_test.go": "server/zz_verif_common_test.go",
-			"harness/server/zz_verif_store_test.go":  "server/zz_verif_store_test.go",
-			"harness/server/zz_verif_simnet_test.go": "server/zz_verif_simnet_test.go",
-			"harness/server/zz_verif_pull_test.go":   "server/zz_verif_pull_test.go",
+			"harness/server/zz_verif_common_test.go":  "server/zz_verif_common_test.go",
+			"harness/server/zz_verif_store_test.go":   "server/zz_verif_store_test.go",
+			"harness/server/zz_verif_simnet_test.go":  "server/zz_verif_simnet_test.go",
+			"harness/server/zz_verif_pull_test.go":    "server/zz_verif_pull_test.go",
+			"harness/server/zz_verif_ops_test.go":     "server/zz_verif_ops_test.go",
+			"harness/server/zz_verif_crash_test.go":   "server/zz_verif_crash_test.go",
+			"harness/server/zz_verif_push_test.go":    "server/zz_verif_push_test.go",
+			"harness/server/zz_verif_ggufapi_test.go": "server/zz_verif_ggufapi_test.go",
 		},
 	}, map[string]propSpec{
 		"C03": {level: "exploration", quickS: 45, thoroughS: 900,
 			probes: []string{"pull_success", "pull_failed", "resume_from_parts", "multi_part", "auth_challenge", "redirect_cdn", "final_retry_ok"}},
+		"C04": {level: "exploration", quickS: 45, thoroughS: 900,
+			probes: []string{"op_create_ok", "op_create-from_ok", "op_copy_ok", "op_delete_ok", "op_pull_ok", "op_restart_ok", "prune_exact", "two_models_coexist"}},
+		"C12": {level: "fault_enumeration", quickS: 60, thoroughS: 900,
+			probes: []string{"crashed_in_pull", "crashed_in_create", "crashed_in_create-from", "crashed_in_copy", "crashed_in_delete", "redo_ok", "converged"}},
 	})
 }
